@@ -304,3 +304,35 @@ def reachable_functions(repo, ci, member_name: str, depth: int = 2) -> List[ast.
 
     visit(member_name, depth)
     return out
+
+
+def check_side_paths(ctx, rule: str, construct: str, e: ast.expr, expected: List[tuple], detail: str = ""):
+    """Each (guard, leaf) pair of `expected` must be a path of the summary `e`: some path returns `leaf` and is taken
+    when `guard` holds (guard = one disjunct of a positive test, or the negation of a negative one).  Order and
+    nesting of the guards, merged conditions (`a or b`) and flipped polarity do not matter.  Tri-state per pair."""
+    from .exprdiff import canon, compare, parse
+    from .symex import strip_ifexp_paths
+
+    paths = strip_ifexp_paths(e)
+    for gtext, ltext in expected:
+        want_leaf = u(canon(parse(ltext)))
+        verdict, why = None, "no path returns " + ltext
+        for gs, leaf in paths:
+            if u(canon(leaf)) != want_leaf:
+                continue
+            held: List[ast.expr] = []
+            for g, pol in gs:
+                if pol:
+                    held += g.values if isinstance(g, ast.BoolOp) and isinstance(g.op, ast.Or) else [g]
+                else:
+                    parts = g.values if isinstance(g, ast.BoolOp) and isinstance(g.op, ast.And) else [g]
+                    held += [ast.UnaryOp(op=ast.Not(), operand=p) for p in parts]
+            ok, w = match_any(held, [gtext])
+            if ok is True:
+                verdict, why = True, ""
+                break
+            if ok is False and verdict is None:
+                verdict, why = False, w
+            elif verdict is None:
+                why = f"{ltext} is returned, but not under {gtext}"
+        ctx.ob(rule, construct + f" [{gtext[:50]} -> {ltext[:30]}]", [(" & ".join(("" if p else "not ") + u(g)[:40] for g, p in gs), u(l)[:40]) for gs, l in paths][:5], f"{gtext} -> {ltext}", verdict, why or detail)
